@@ -111,9 +111,40 @@ structure GPod where
   deletionGracePeriodSeconds : Option Int
   spec : GPodSpec
   status : GPodStatus
+  /-- read by `compareSpecTemplateMD5Hash` (group Status) only -/
+  annotations : SMap := []
+  deriving DecidableEq, Repr, Inhabited
+
+/-! ### group Status: `strategy.Parameters` / `strategy.Result` as far as `manageCanaryPodFailures` reads and
+writes them, and `reconcile.Result`. -/
+
+/-- `strategy.Parameters` (controllers/extendeddaemonsetreplicaset/strategy/type.go): `Strategy`, `NewStatus`. -/
+structure GParams where
+  strategy : Option Strategy
+  newStatus : Option ERSStatus
+  deriving DecidableEq, Repr, Inhabited
+
+/-- `strategy.Result`: the flags and the status under construction. -/
+structure GResult where
+  isFrozen : Bool
+  isPaused : Bool
+  pausedReason : String
+  isUnpaused : Bool
+  isFailed : Bool
+  failedReason : String
+  newStatus : Option ERSStatus
+  deriving DecidableEq, Repr, Inhabited
+
+/-- `reconcile.Result` (controller-runtime). -/
+structure GReconcileResult where
+  requeue : Bool
+  requeueAfter : Dur
   deriving DecidableEq, Repr, Inhabited
 
 namespace Go
+
+/-- `len(s)` of a string: its length in bytes. -/
+def strLen (s : String) : Int := (s.utf8ByteSize : Int)
 
 /-- `l[i]`; `none` = index out of range (panic). -/
 def index {α} (l : List α) (i : Int) : Option α := if i < 0 then none else l[i.toNat]?
